@@ -100,9 +100,9 @@ class HopSeqGen(Contract):
 
     def params(self, c):
         t = c.ptr("t")
-        hsn = c.int("hsn")
-        c.int("maio")
-        n = c.int("n")
+        hsn = c.int("hsn", hi=63)          # declared bounds: part of the pre-condition, and the engine's interval
+        c.int("maio", hi=63)
+        n = c.int("n", lo=1, hi=64)
         c.ptr("arfcn_tbl", count=c.a.n_v, nullable=True, single=False)
         if c.mode == "verify":
             time_init(c, t)
